@@ -38,7 +38,7 @@ BUDGET = {"quick": (3000, 150), "thorough": (60000, 2400)}
 FAULTS = ["tcp_cut", "tcp_coalesce", "connect_refused", "peer_fin", "rst", "short_send", "srv_bad_serverhello",
           "srv_close_after_hello", "srv_frames_behind_hello", "client_disconnect_in_handshake"]
 PROBES = ["variant_XX", "variant_IK", "variant_XXfallback", "config_rewritten", "frame_queued_while_handshake",
-          "stale_worker_at_next_attempt", "login_failure_reported", "big_stanza", "reconnect_after_cut", "worker_died", "disconnect_request_raised"]
+          "stale_worker_at_next_attempt", "login_failure_reported", "big_stanza", "reconnect_after_cut", "worker_died", "login_settings_changed_between_attempts"]
 SHRINK = ["attempts"]
 STATE_MEASURE = "abstract state = (attempt no, server stage, noise protocol state, #blocked handshake workers, queue length bucket)"
 
@@ -126,8 +126,21 @@ def case(idx, tier, base):
                 big = "mid"
             c2s.append({"i": sid, "big": big})
             sid += 1
-        attempts.append({"cut": cut, "corrupt": corrupt, "early": r.choice([0, 0, 1, 3, len(s2c)]),
-                         "s2c": s2c, "c2s": c2s, "cut_after": r.randint(0, 5)})
+        att = {"cut": cut, "corrupt": corrupt, "early": r.choice([0, 0, 1, 3, len(s2c)]),
+               "s2c": s2c, "c2s": c2s, "cut_after": r.randint(0, 5)}
+        if attempts and r.random() < 0.5:
+            # the application (or the library's own passive/active switch) changes what the next login presents
+            ch = {}
+            if r.random() < 0.7:
+                ch["passive"] = r.random() < 0.5
+            if r.random() < 0.3:
+                ch["pushname"] = r.choice([None, "me", "other", "J\xfcrgen \u2603"])
+            if r.random() < 0.2:
+                ch["mcc"] = r.choice([None, "262", "310"])
+                ch["mnc"] = r.choice([None, "01", "260"])
+            if ch:
+                att["cfg"] = ch
+        attempts.append(att)
     cfg = {"edge": binascii.hexlify(rbytes(r, r.choice([1, 8, 40, 300]))).decode() if r.random() < 0.4 else None,
            "mcc": r.choice([None, "262", "310"]), "mnc": r.choice([None, "01", "260"]),
            "pushname": r.choice([None, "me", "J\xfcrgen ☃"]), "passive": r.random() < 0.3,
@@ -365,7 +378,9 @@ class Session(object):
         except Exception as ex:  # noqa
             w.violate("C04/login/payload-unparsable", repr(ex))
             return
-        cfg = w.cfg
+        cfg = w.cfg_by_attempt[self.no] if self.no < len(w.cfg_by_attempt) else w.cfg
+        if self.no < len(w.attempts) and w.attempts[self.no].get("cfg"):
+            w.probe("login_settings_changed_between_attempts")
         ver = [int(x) for x in e.getVersion().split(".")]
         got = {"username": cp.username, "passive": cp.passive, "push_name": cp.push_name,
                "mcc": cp.user_agent.mcc, "mnc": cp.user_agent.mnc, "phone_id": cp.user_agent.phone_id,
@@ -401,6 +416,11 @@ class W(wire.World):
                                 decisions=case.get("decisions"))
         self.case = case
         self.cfg = case["cfg"]
+        self.cfg_by_attempt = []
+        eff = dict(self.cfg)
+        for att in case["attempts"]:
+            eff = dict(eff, **(att.get("cfg") or {}))
+            self.cfg_by_attempt.append(eff)
         self.attempts = case["attempts"]
         self.srv_rng = stream(case["seed"], "server")
         self.sessions = []
@@ -507,8 +527,22 @@ class W(wire.World):
                 # what YowInterfaceLayer.onDisconnected does when a reconnect is wanted
                 self.probe("reconnect_after_cut")
                 self._count_stale_workers()
+                self.apply_cfg(self.net.connect_count)
                 layer.getLayerInterface(S["YowNetworkLayer"]).connect()
         return False
+
+    def apply_cfg(self, a):
+        """What the application changes before login attempt a."""
+        ch = self.attempts[a].get("cfg") if a < len(self.attempts) else None
+        if not ch:
+            return
+        S = _S
+        if "passive" in ch:
+            self.stack.setProp(S["YowAuthenticationProtocolLayer"].PROP_PASSIVE, bool(ch["passive"]))
+        conf = self.profile.config
+        for key in ("pushname", "mcc", "mnc"):
+            if key in ch:
+                setattr(conf, key, ch[key])
 
     def _count_stale_workers(self):
         n = 0
@@ -639,9 +673,10 @@ class W(wire.World):
         try:
             self.stack.broadcastEvent(S["YowLayerEvent"](S["YowNetworkLayer"].EVENT_STATE_DISCONNECT))
         except Exception as e:  # noqa
-            # a disconnect request that raises is C16's business; C04 judges what follows
-            self.probe("disconnect_request_raised")
+            import traceback
             self.k.note("app: disconnect raised", type(e).__name__)
+            self.violate("C04/disconnect-request-raises:%s" % type(e).__name__, "the application's disconnect request raised: %s"
+                         % traceback.format_exc()[-500:])
 
     def _send_all(self, a, att, over, cut):
         k = self.k
